@@ -44,6 +44,7 @@ class Ctx:
         self.kmax = kmax
         self.prune_timeout_ms = prune_timeout_ms
         self._solver = None
+        self._deferred = []
         self.prune_s = 0.0
         self.config = {}
 
@@ -56,8 +57,10 @@ class Ctx:
         if self._solver is None:
             s = z3.Solver()
             s.set("timeout", self.prune_timeout_ms)
+            deferred = {d.get_id() for d in self._deferred}
             for a in self.assumes:
-                s.add(a)
+                if a.get_id() not in deferred:
+                    s.add(a)
             for p in self.pc:
                 s.add(p)
             self._solver = s
@@ -69,10 +72,14 @@ class Ctx:
             self._solver.add(t)
 
     def assume(self, t, why=None):
-        """Add an assumption in the middle of a path (gate treated as assumption)."""
+        """Add an assumption in the middle of a path (gate treated as assumption).
+        Gate assumptions (why given) are kept out of the *pruning* solver: they are large nonlinear terms that only
+        restrict, so leaving them out over-approximates feasibility (a path explored needlessly is filtered later)."""
         self.assumes.append(t)
         if why is not None:
             self.gate_assumed.append(why)
+            self._deferred.append(t)
+            return
         if self._solver is not None:
             self._solver.add(t)
 
